@@ -147,7 +147,7 @@ fn scalar_map(k: u8, x: f64) -> f64 {
     map_dispatch!(k, x)
 }
 
-pub const POWI_EXPS: [i32; 12] = [-2, -1, 0, 1, 2, 3, 4, 5, 65, -77, 200, -300];
+pub const POWI_EXPS: [i32; 15] = [-2, -1, 0, 1, 2, 3, 4, 5, 65, -77, 200, -300, i32::MIN, i32::MAX, -2147483647];
 pub const POWF_EXPS: [f64; 10] = [2.0, 3.0, 0.5, -1.5, 2.5, 0.0, f64::NAN, f64::INFINITY, f64::NEG_INFINITY, 1.0];
 
 pub fn all_forms() -> Vec<Form> {
@@ -872,7 +872,7 @@ fn gen_val(r: &mut Sm, special: bool) -> f64 {
         2 => (r.f64() - 0.5) * 2e3,
         3 => r.f64() * 2.0 - 1.0,
         4 => (r.f64() * 4.0 - 2.0).exp2() * if r.chance(0.5) { -1.0 } else { 1.0 },
-        _ => *r.pick(&[0.87, 1.27, 2.17, 0.1, 0.3, 1.0 / 3.0, 1e-8, 1e8]),
+        _ => *r.pick(&[0.87, 1.27, 2.17, 0.1, 0.3, 1.0 / 3.0, 1e-8, 1e8, 1.0 + 1e-9, 1.0 - 2e-10, -1.0 - 3e-10, 1.0 + f64::EPSILON, -1.0 + 5e-8]),
     }
 }
 
